@@ -251,6 +251,10 @@ func c06Run(env *verifsim.Env, raw json.RawMessage) *verifsim.Violation {
 	if setupErr != "" {
 		panic(setupErr)
 	}
+	// start-up work that is still parked (background managers) finishes before faults are switched on
+	if err := s.Settle(20*time.Millisecond, 10*time.Millisecond); err != nil {
+		return c06Budget(err, w, p, "finishing start-up")
+	}
 	s.SetFaultsEnabled(true)
 
 	// readState reads a document's current state straight from the database layer (the oracle does not go through
